@@ -298,6 +298,67 @@ impl TestDriver for RecDriver {
     }
 }
 
+/// A driver that implements only the required trait method: mid-clock rows reach the device
+/// through the trait's OWN default `write_input` (which must forward to the output-reading
+/// method and discard the answer).
+pub struct PlainDriver(pub RecDriver);
+
+impl TestDriver for PlainDriver {
+    type Error = DevError;
+
+    fn write_input_and_read_output(
+        &mut self,
+        inputs: &[InputEntry<'_>],
+    ) -> Result<Vec<OutputEntry<'_>>, Self::Error> {
+        self.0.write_input_and_read_output(inputs)
+    }
+}
+
+/// Plain `next()` run of a bound test against a fresh scripted device behind a [`PlainDriver`].
+pub fn run_bound_plain_driver(
+    tc: &TestCase,
+    sigs: &[Sig],
+    script: &Script,
+    seed: Option<u64>,
+    cap: usize,
+) -> Option<(Vec<RealItem>, Vec<RealCall>, Option<PanicInfo>)> {
+    let mut drv = PlainDriver(RecDriver::new(sigs, script));
+    let shared = drv.0.shared.clone();
+    verif_hooks::set_seed_override(seed);
+    let _ = verif_hooks::take_draw_log();
+    let r = guarded(|| tc.try_iter(&mut drv));
+    verif_hooks::set_seed_override(None);
+    let mut it = match r {
+        Ok(Ok(it)) => it,
+        Ok(Err(_)) => return None,
+        Err(p) => return Some((vec![], vec![], Some(p))),
+    };
+    let mut items = vec![];
+    let mut panic = None;
+    while items.len() < cap {
+        let r = guarded(|| it.next().map(|r| r.map(|row| conv_row(tc, &row))));
+        let item = match r {
+            Ok(None) => RealItem::End,
+            Ok(Some(Ok(row))) => RealItem::Row(row),
+            Ok(Some(Err(IterationError::Driver(e)))) => RealItem::ErrDriver { nonce: e.nonce, call: e.call },
+            Ok(Some(Err(e @ IterationError::Runtime(_)))) => RealItem::ErrRuntime(err_chain(&e)),
+            Err(p) => {
+                panic = Some(p);
+                break;
+            }
+        };
+        let end = item == RealItem::End;
+        items.push(item);
+        if end {
+            break;
+        }
+    }
+    drop(it);
+    let _ = verif_hooks::take_draw_log();
+    let calls = shared.borrow().calls.clone();
+    Some((items, calls, panic))
+}
+
 // ---------------------------------------------------------------------------------------
 // trace
 
